@@ -33,7 +33,10 @@ Definition value_effect (c : cmd) (flag : bool) (env : pd_env) (ld : option lock
         match c_data c, flag with
         | Some frame, true => vstep env frame ld (gd s k) (m_data m') ev
         | _, _ => aofle (gd s k) (m_data m')
-        end).
+        end)
+  (* a failing value operation is reported, whether or not the manager survives *)
+  /\ (forall frame, c_data c = Some frame -> flag = true ->
+        pd_failed (process_lock_data env frame (gd s k) ld) -> exists site, In (EPanic site) ev).
 
 (* ------------------------------------------------------------------ basic facts *)
 Lemma getm_updm_same Y k f m : aget (mgrs Y) k = Some m -> getm (updm Y k f) k = f m.
@@ -69,7 +72,7 @@ Proof. intros He H k0 m' Hm'. rewrite <- He. apply H, Hm'. Qed.
 Lemma value_effect_marked c flag env ld s k s' ev :
   mrel (le_mark k) true s s' -> (flag = false \/ c_data c = None) -> value_effect c flag env ld s k s' ev.
 Proof.
-  intros H Hf. split.
+  intros H Hf. split; [|split].
   - intros k0 m' Hk Hm'. destruct (mrel_back _ _ _ _ _ _ H Hm') as (m & Hm & Hle).
     unfold le_mark in Hle. apply N.eqb_neq in Hk. rewrite Hk in Hle.
     unfold gd. rewrite (getm_some _ _ _ Hm). exact Hle.
@@ -77,23 +80,26 @@ Proof.
     unfold le_mark in Hle. rewrite N.eqb_refl in Hle.
     unfold gd. rewrite (getm_some _ _ _ Hm).
     destruct Hf as [-> | ->]; [destruct (c_data c)|]; exact Hle.
+  - intros frame Hc Hfl _. destruct Hf as [-> | Hn]; [discriminate|congruence].
 Qed.
 
 Lemma value_effect_gd_eq c flag env ld s s0 k s' ev :
   (forall k0, gd s0 k0 = gd s k0) -> value_effect c flag env ld s0 k s' ev -> value_effect c flag env ld s k s' ev.
 Proof.
-  intros He (H1 & H2). split.
+  intros He (H1 & H2 & H3). split; [|split].
   - intros k0 m' Hk Hm'. rewrite <- He. auto.
   - intros m' Hm'. specialize (H2 m' Hm'). rewrite <- He. exact H2.
+  - intros frame Hc Hfl Hp. rewrite <- He in Hp. eauto.
 Qed.
 
 (* vals_kept is stronger *)
 Lemma value_effect_kept c env ld s k s' ev :
   vals_kept s s' -> value_effect c false env ld s k s' ev.
 Proof.
-  intros H. split.
+  intros H. split; [|split].
   - intros k0 m' _ Hm'. auto.
   - intros m' Hm'. rewrite (H k m' Hm'). destruct (c_data c); apply aofle_refl.
+  - intros frame _ Hfl. discriminate Hfl.
 Qed.
 
 (* ONE call of process_data in state X, followed by helpers that keep every value modulo the bit at k *)
@@ -112,7 +118,7 @@ Proof.
       apply value_effect_gd_eq with (s0 := X); auto.
       apply value_effect_marked; auto. }
   unfold pd_env_of in E. rewrite Hlk, Hwt, Hld in E. fold (mk_env c lk wt b) in E.
-  split.
+  split; [|split].
   - intros k0 m' Hk Hm'. destruct (mrel_back _ _ _ _ _ _ Hpost Hm') as (m1 & Hm1 & Hle).
     unfold le_mark in Hle. apply N.eqb_neq in Hk. rewrite Hk in Hle. apply N.eqb_neq in Hk.
     rewrite <- Hgd. rewrite Hle.
@@ -136,6 +142,9 @@ Proof.
     + destruct E as (-> & site' & ->). split.
       * unfold gd. rewrite (getm_some _ _ _ Hm1). exact Hle.
       * destruct Hpev as [Hp|Hp]; [discriminate|exact Hp].
+  - intros frame0 Hc0 _ Hp. rewrite Ec in Hc0. inv Hc0. rewrite <- (Hgd k) in Hp.
+    destruct (process_lock_data _ frame0 _ _) as [[cur' ld']| | |]; [contradiction| | |].
+    all: destruct E as (_ & site' & ->); destruct Hpev as [Hx|Hx]; [discriminate|exact Hx].
 Qed.
 
 (* the record created by new_lock *)
